@@ -217,11 +217,10 @@ def callGlobal (W : World) (fuel : Nat) (sg : Sig) (o : Opts) (args : List Val) 
 
 /-- every error of the uncapped collecting call names an item that fails on its own, or belongs to the keyword
 mapping as a whole … -/
-theorem callReports_sound (W : World) (fuel : Nat) (sg : Sig) (o : Opts) (args : List Val) (kwargs : Data) (e : Err)
-    (he : e ∈ callReports (parse W fuel) .ff o sg args kwargs) :
+theorem callReports_sound (W : World) (fuel : Nat) (sg : Sig) (hpo : sg.nposOnly = 0) (o : Opts) (args : List Val)
+    (kwargs : Data) (e : Err) (he : e ∈ callReports (parse W fuel) .ff o sg args kwargs) :
     (∃ i, e.item = some i ∧ callFails W fuel sg o args kwargs i = true) ∨ e ∈ callGlobal W fuel sg o args kwargs := by
-  unfold callReports at he
-  rw [posFin_keys] at he
+  rw [callReports_noPosOnly _ _ _ _ hpo] at he
   rcases List.mem_append.mp he with he | he
   · left
     rw [posReports_eq] at he
@@ -239,12 +238,11 @@ theorem callReports_sound (W : World) (fuel : Nat) (sg : Sig) (o : Opts) (args :
     · exact Or.inr hg
 
 /-- … and every item that fails on its own is named by one of them -/
-theorem callReports_complete (W : World) (fuel : Nat) (sg : Sig) (o : Opts) (args : List Val) (kwargs : Data)
-    (i : String) (hi : callFails W fuel sg o args kwargs i = true) :
+theorem callReports_complete (W : World) (fuel : Nat) (sg : Sig) (hpo : sg.nposOnly = 0) (o : Opts) (args : List Val)
+    (kwargs : Data) (i : String) (hi : callFails W fuel sg o args kwargs i = true) :
     ∃ e ∈ callReports (parse W fuel) .ff o sg args kwargs, e.item = some i := by
   unfold callFails at hi
-  unfold callReports
-  rw [posFin_keys]
+  rw [callReports_noPosOnly _ _ _ _ hpo]
   simp only [Bool.or_eq_true, List.any_eq_true, beq_iff_eq] at hi
   rcases hi with ⟨it, hit, hf⟩ | hi
   · obtain ⟨e, he, hei⟩ := (posRep_posFailing W fuel sg o it).2 i hf
@@ -258,19 +256,20 @@ theorem callReports_complete (W : World) (fuel : Nat) (sg : Sig) (o : Opts) (arg
 positional argument that is rejected when given alone, an element `*args:j` rejected by the `*args` type, a
 keyword / missing parameter / additional key that fails on its own; plus the errors of the keyword mapping as a
 whole. -/
-theorem C10_call_reported_eq_failing (W : World) (fuel : Nat) (sg : Sig) (o : Opts) (args : List Val)
-    (kwargs : Data) (x : Exc) (h : runCall W fuel sg ⟨true, none⟩ o args kwargs = .error x) :
+theorem C10_call_reported_eq_failing (W : World) (fuel : Nat) (sg : Sig) (hpo : sg.nposOnly = 0) (o : Opts)
+    (args : List Val) (kwargs : Data) (x : Exc) (h : runCall W fuel sg ⟨true, none⟩ o args kwargs = .error x) :
     ∃ es, x = .collected es ∧
       (∀ e ∈ es, (∃ i, e.item = some i ∧ callFails W fuel sg o args kwargs i = true) ∨
         e ∈ callGlobal W fuel sg o args kwargs) ∧
       (∀ i, callFails W fuel sg o args kwargs i = true → ∃ e ∈ es, e.item = some i) := by
   obtain ⟨hx, _⟩ := C10_call_one_exception W fuel sg none trivial o args kwargs x h
-  exact ⟨_, hx, fun e he => callReports_sound W fuel sg o args kwargs e he,
-    fun i hi => callReports_complete W fuel sg o args kwargs i hi⟩
+  exact ⟨_, hx, fun e he => callReports_sound W fuel sg hpo o args kwargs e he,
+    fun i hi => callReports_complete W fuel sg hpo o args kwargs i hi⟩
 
 /-- With `max_errors = k`: at most `k` errors, each naming an item of the call that fails on its own (or an error
 of the keyword mapping as a whole). -/
-theorem C10_call_capped_reports_failing (W : World) (fuel : Nat) (sg : Sig) (k : Nat) (hk : 0 < k) (o : Opts)
+theorem C10_call_capped_reports_failing (W : World) (fuel : Nat) (sg : Sig) (hpo : sg.nposOnly = 0) (k : Nat)
+    (hk : 0 < k) (o : Opts)
     (args : List Val) (kwargs : Data) (x : Exc) (h : runCall W fuel sg ⟨true, some k⟩ o args kwargs = .error x) :
     ∃ es, x = .collected es ∧ es.length ≤ k ∧
       ∀ e ∈ es, (∃ i, e.item = some i ∧ callFails W fuel sg o args kwargs i = true) ∨
@@ -278,12 +277,12 @@ theorem C10_call_capped_reports_failing (W : World) (fuel : Nat) (sg : Sig) (k :
   obtain ⟨hx, _⟩ := C10_call_one_exception W fuel sg (some k) hk o args kwargs x h
   refine ⟨_, hx, by simp [cap, List.length_take, Nat.min_le_left], ?_⟩
   intro e he
-  exact callReports_sound W fuel sg o args kwargs e (List.mem_of_mem_take he)
+  exact callReports_sound W fuel sg hpo o args kwargs e (List.mem_of_mem_take he)
 
 /-- A call is accepted (in either mode) iff none of its items fails on its own and its keyword mapping as a
 whole has nothing to report. -/
-theorem C10_call_accept_iff_none_fails (W : World) (fuel : Nat) (sg : Sig) (o : Opts) (args : List Val)
-    (kwargs : Data) :
+theorem C10_call_accept_iff_none_fails (W : World) (fuel : Nat) (sg : Sig) (hpo : sg.nposOnly = 0) (o : Opts)
+    (args : List Val) (kwargs : Data) :
     isError (runCall W fuel sg .ff o args kwargs) = false ↔
       (∀ i, callFails W fuel sg o args kwargs i = false) ∧ callGlobal W fuel sg o args kwargs = [] := by
   rw [C10_call_same_verdict W fuel sg ⟨true, none⟩ o args kwargs, runCall_collect W fuel sg none trivial,
@@ -300,15 +299,14 @@ theorem C10_call_accept_iff_none_fails (W : World) (fuel : Nat) (sg : Sig) (o : 
       | false => rfl
       | true =>
         exfalso
-        obtain ⟨e, he, _⟩ := callReports_complete W fuel sg o args kwargs i hf
+        obtain ⟨e, he, _⟩ := callReports_complete W fuel sg hpo o args kwargs i hf
         rw [hnil] at he; cases he
     · cases hg : callGlobal W fuel sg o args kwargs with
       | nil => rfl
       | cons e es =>
         exfalso
         have hm : e ∈ callReports (parse W fuel) .ff o sg args kwargs := by
-          unfold callReports
-          rw [posFin_keys]
+          rw [callReports_noPosOnly _ _ _ _ hpo]
           refine List.mem_append.mpr (Or.inr ?_)
           exact (mem_reportsX_true (parse W fuel) .ff o sg.decl (givenPos sg args) kwargs e).mpr
             (Or.inl (by unfold callGlobal at hg; rw [hg]; exact List.mem_cons_self))
@@ -318,9 +316,58 @@ theorem C10_call_accept_iff_none_fails (W : World) (fuel : Nat) (sg : Sig) (o : 
     | nil => rfl
     | cons e es =>
       exfalso
-      rcases callReports_sound W fuel sg o args kwargs e (by rw [hr]; exact List.mem_cons_self) with ⟨i, _, hi⟩ | hg
+      rcases callReports_sound W fuel sg hpo o args kwargs e (by rw [hr]; exact List.mem_cons_self) with ⟨i, _, hi⟩ | hg
       · rw [h1 i] at hi; cases hi
       · rw [h2] at hg; cases hg
+
+/-! ### Schema construction with output properties (`__post_init__`) -/
+
+/-- A Schema with `@property` outputs is constructed with the same value fail-fast and collecting … -/
+theorem C10_schema_same_value (W : World) (fuel : Nat) (decl : List FieldDecl) (props : List PropDecl) (mC : Mode)
+    (o : Opts) (data : Data) (r : Data) :
+    runSchema W fuel decl props .ff o data = .ok r ↔ runSchema W fuel decl props mC o data = .ok r := by
+  rcases runSchema_strong W fuel decl props mC o data with ⟨r', hF, hC⟩ | ⟨⟨x, hF⟩, x', hC⟩
+  · rw [hF, hC]
+  · rw [hF, hC]; simp
+
+/-- … and rejected for the same inputs — also when only a computed property fails its return annotation
+(what seed C10-r4-A broke: the error handled in a throw-away sub-context). -/
+theorem C10_schema_same_verdict (W : World) (fuel : Nat) (decl : List FieldDecl) (props : List PropDecl) (mC : Mode)
+    (o : Opts) (data : Data) :
+    isError (runSchema W fuel decl props .ff o data) = isError (runSchema W fuel decl props mC o data) := by
+  rcases runSchema_strong W fuel decl props mC o data with ⟨r', hF, hC⟩ | ⟨⟨x, hF⟩, x', hC⟩
+  · rw [hF, hC]
+  · rw [hF, hC]; rfl
+
+/-- A rejected collecting construction raises one `CollectedParseError`: the input errors when there are any
+(the properties are then not computed), otherwise one error per property whose value its annotation rejects
+under the `throw` policy, each naming that property; cut at `max_errors`. -/
+theorem C10_schema_one_exception (W : World) (fuel : Nat) (decl : List FieldDecl) (props : List PropDecl)
+    (mx : Option Nat) (hk : capOk mx 0) (o : Opts) (data : Data) (x : Exc)
+    (h : runSchema W fuel decl props ⟨true, mx⟩ o data = .error x) :
+    (reports (parse W fuel) ⟨true, mx⟩ o decl data ≠ [] ∧
+      x = .collected (cap mx (reports (parse W fuel) ⟨true, mx⟩ o decl data))) ∨
+    (reports (parse W fuel) ⟨true, mx⟩ o decl data = [] ∧
+      x = .collected (cap mx (propReports (parse W fuel) ⟨true, mx⟩ o decl props data))) := by
+  rw [runSchema_collect W fuel decl props mx hk] at h
+  by_cases hr : reports (parse W fuel) ⟨true, mx⟩ o decl data = []
+  · right
+    simp only [hr, if_true] at h
+    split at h
+    · simp at h
+    · simp only [Except.error.injEq] at h
+      exact ⟨hr, h.symm⟩
+  · left
+    simp only [hr, if_false, Except.error.injEq] at h
+    exact ⟨hr, h.symm⟩
+
+theorem C10_schema_count_le_max (W : World) (fuel : Nat) (decl : List FieldDecl) (props : List PropDecl)
+    (k : Nat) (hk : 0 < k) (o : Opts) (data : Data) (x : Exc)
+    (h : runSchema W fuel decl props ⟨true, some k⟩ o data = .error x) :
+    ∃ es, x = .collected es ∧ es.length ≤ k := by
+  rcases C10_schema_one_exception W fuel decl props (some k) hk o data x h with ⟨_, hx⟩ | ⟨_, hx⟩
+  · exact ⟨_, hx, by simp [cap, List.length_take, Nat.min_le_left]⟩
+  · exact ⟨_, hx, by simp [cap, List.length_take, Nat.min_le_left]⟩
 
 /-! ### fuel
 
